@@ -53,7 +53,7 @@ def rule_names_resolve(eng, rep, rule="C07-1b.names-resolve"):
                 # comprehension variables
                 if _is_comprehension_var(eng, node):
                     continue
-                if (fi.module, node.id) in exc:
+                if (fi.fid.split(".")[0], node.id) in exc:          # (the function's home module: the exception moves with the function)
                     rep.note(rule, eng.where(fi, node), "unresolved name %s (frozen exception)" % node.id)
                     continue
                 rep.bad(rule, eng.where(fi, node), "%s|%s" % (fi.fid, node.id),
@@ -377,8 +377,20 @@ def _all_guard_expr(atoms):
 
 
 # --------------------------------------------------------------------------------------------- C07-4
+def exit_module(eng):
+    """the module that defines the EXIT_* constants (controller on the pinned tree)"""
+    best = None
+    for mi in eng.prog.modules.values():
+        k = len([n for n in mi.globals if n.startswith("EXIT_")])
+        if k and (best is None or k > best[0]):
+            best = (k, mi)
+    if best is None:
+        raise AnalysisError("no module defines EXIT_* constants")
+    return best[1]
+
+
 def exit_registry(eng):
-    ctrl = eng.prog.modules["controller"]
+    ctrl = exit_module(eng)
     consts = {}
     for name, val in ctrl.globals.items():
         if name.startswith("EXIT_"):
@@ -391,7 +403,7 @@ def exit_registry(eng):
 
 def rule_exit_registry(eng, rep):
     rule = "C07-4.exit-code-registry"
-    ctrl = eng.prog.modules["controller"]
+    ctrl = exit_module(eng)
     consts = exit_registry(eng)
     if not rep.require_count(rule, "EXIT_* constants", len(consts), 8):
         return
@@ -717,7 +729,9 @@ def rule_raises(eng, rep):
             if optin:
                 rep.ok(rule, site, "raise %s only under the opt-in parameter %s" % (name, tables.OPT_IN_RAISE_PARAM))
                 continue
-            rep.bad(rule, site, "%s|raise|%s" % (fid, name), "explicit `raise %s` reachable from solve (a documented-domain input can surface as an exception)" % name)
+            # the construct is the raise statement itself (exception type + message), wherever a refactoring puts it
+            msgs = [c.value for c in ast.walk(node) if isinstance(c, ast.Constant) and isinstance(c.value, str)]
+            rep.bad(rule, site, "raise|%s|%s" % (name, (msgs[0][:60] if msgs else fid)), "explicit `raise %s` reachable from solve (a documented-domain input can surface as an exception)" % name)
     rep.require_count(rule, "raise statements reachable from solve", n, 3)
     rep.note(rule, "package", "%d assert statements reachable from solve (listed, not armed)" % nassert)
 
